@@ -4,8 +4,9 @@ Applies a seeded change to a scratch worktree of /repo (never /repo itself), run
 redirected to a scratch directory, prints which obligations fail.  Writes <dir>/detection.json."""
 import sys, os, subprocess, json, shutil, re, time
 V = os.path.dirname(os.path.dirname(os.path.abspath(__file__)))
-d = os.path.abspath(sys.argv[1]); pids = sys.argv[2:]
-tag = re.sub(r'\W+', '_', d)[-40:]
+nowrite = '--no-write' in sys.argv
+d = os.path.abspath(sys.argv[1]); pids = [a for a in sys.argv[2:] if not a.startswith('--')]
+tag = re.sub(r'\W+', '_', d)[-40:] + ('_rg%d' % os.getpid() if nowrite else '')
 wt = '/var/tmp/wt-seed-' + tag; out = '/var/tmp/seedout-' + tag
 subprocess.run(['git', '-C', '/repo', 'worktree', 'remove', '--force', wt], capture_output=True)
 subprocess.run(['git', '-C', '/repo', 'worktree', 'add', '--detach', wt, 'HEAD'], capture_output=True, check=True)
@@ -14,14 +15,14 @@ try:
     r = subprocess.run(['git', '-C', wt, 'apply', os.path.join(d, 'patch.diff')], capture_output=True, text=True)
     if r.returncode: print('PATCH DOES NOT APPLY', r.stderr); sys.exit(3)
     os.makedirs(out, exist_ok=True)
-    env = dict(os.environ, VERIF_REPO=wt, VERIF_OUT=out)
+    env = dict(os.environ, VERIF_REPO=wt, VERIF_OUT=out, VERIF_NO_EXTRAS='1')
     for pid in pids:
         t0 = time.time()
         r = subprocess.run([os.path.join(V, 'check'), pid, '--jobs', '8'], capture_output=True, text=True, env=env, cwd=V)
         lines = [l for l in r.stdout.split('\n') if l.startswith(('VIOLATION', '  failed obligation', '  clause', 'UNDECIDED', 'PASS', 'FAIL', 'KNOWN'))]
         res[pid] = dict(exit=r.returncode, lines=lines[:30], wall_s=round(time.time() - t0, 1))
         print(pid, 'exit', r.returncode); print('\n'.join(lines[:12]))
-    json.dump(res, open(os.path.join(d, 'detection.json'), 'w'), indent=1)
+    if not nowrite: json.dump(res, open(os.path.join(d, 'detection.json'), 'w'), indent=1)
 finally:
     subprocess.run(['git', '-C', '/repo', 'worktree', 'remove', '--force', wt], capture_output=True)
     shutil.rmtree(out, ignore_errors=True)
